@@ -38,8 +38,18 @@ def scaled(block=64):
         impl.set_block(16384)
 
 
+ROOT_NAMES = ["payload"] * 6 + ["Top 100% Hits", "pay load", "%s", "p%d", ".hidden", "-dash", "päyload",
+                                 "a&b=c", "[grp] x", "p\\q", "{0}", "100%"]
+
+
 def make_case(rng, tier, damage, max_damage=4):
+    case = _make_case(rng, tier, damage, max_damage)
+    return case
+
+
+def _make_case(rng, tier, damage, max_damage=4):
     pl = gen.pick_pl(rng, B)
+    root_name = rng.choice(ROOT_NAMES)
     version = rng.choice([1, 2, 3])
     single = rng.random() < 0.2
     want_source = rng.choice(SOURCES)
@@ -56,7 +66,7 @@ def make_case(rng, tier, damage, max_damage=4):
             # an entry named like the payload root itself (album/album/...); a lone file named
             # like the root would be the BEP 52 single-file shape (ambiguous), so not alone
             rel, blob = files[0]
-            clash = "payload/" + rel if rng.random() < 0.5 else "payload"
+            clash = root_name + "/" + rel if rng.random() < 0.5 else root_name
             if not any(r == clash or r.startswith(clash + "/") or clash.startswith(r + "/")
                        for r, _ in files[1:]):
                 files[0] = (clash, blob)
@@ -88,6 +98,8 @@ def make_case(rng, tier, damage, max_damage=4):
     case = {"files": [(rel, b.token()) for rel, b in files], "pl": pl, "version": version,
             "single": single, "source": source, "creator": rng.choice(creator),
             "via_parent": rng.random() < 0.5, "damage": []}
+    if root_name != "payload" and not single:
+        case["root_name"] = root_name
     if version == 1 and source == "own" and not single and rng.random() < 0.35:
         case["align"] = True        # create --align: BEP 47 padding entries in a v1 file list
     dv = 3 if case.get("align") else version      # an aligned v1 stream is laid out like a hybrid's
@@ -279,14 +291,14 @@ def build(box, case):
     pname = "parent"
     if case.get("parent_like_name"):
         # the parent directory happens to carry the torrent's own name (album/album/...)
-        pname = files[0][0].split("/")[-1] if single else "payload"
+        pname = files[0][0].split("/")[-1] if single else case.get("root_name", "payload")
     parent = os.path.join(box, pname)
     os.makedirs(parent)
     if single:
         name = files[0][0].split("/")[-1]
         write_tree(parent, [(name, files[0][1].bytes())])
     else:
-        name = "payload"
+        name = case.get("root_name", "payload")
         write_tree(os.path.join(parent, name), [(rel, b.bytes()) for rel, b in files])
     root = os.path.join(parent, name)
     mpath = os.path.join(box, "m.torrent")
